@@ -33,6 +33,14 @@ def one(sid, head):
             return sid, "worktree failed: " + out[-200:]
         rc, out = sh(f"git -C {wt} apply {patch}")
         if rc:
+            # a copy of the change re-written against later fix commits (same edit, other context lines)
+            import glob
+            for alt in sorted(glob.glob(os.path.join(sdir, "patch_rebased*.diff")), reverse=True):
+                rc, out = sh(f"git -C {wt} apply {alt}")
+                if rc == 0:
+                    meta["evaluated_with"] = os.path.basename(alt)
+                    break
+        if rc:
             meta["applies_at_head"] = False
             meta["head_checked"] = head
             json.dump(meta, open(mp, "w"), indent=1)
